@@ -153,6 +153,39 @@ state (state, depth, escaped, variable, atStart, word, directives) is an abstrac
 bookkeeping, preserved by every character (`tokStep_sim`) and by the final `endWord` (`tokRun_sim`). -/
 theorem tokenizer_eq_lexer (s : Str) : parseSnippet s = directiveNames s := parseSnippet_eq_directiveNames s
 
+/-- a quote in the MIDDLE or at the END of a bare word is an ordinary character (ngx_conf_read_token recognises quotes only
+when `last_space`, i.e. at the start of a token): for the code's tokenizer and for the reference lexer the quote is appended
+to the word and no quoted section opens; a bare word made of any characters except white space, `;`, `{`, `\`, `$` — quotes
+anywhere after its first character — that is ended by `;` is ONE word token, so a later genuine quoted argument keeps its
+`;` and its text inside the quotes (seeded change C19-r5m1 flipped the quote state after `it's`). -/
+theorem midword_quote_is_plain (q : Char) (hq : q = '"' ∨ q = '\'') :
+    (∀ acc esc var, step (.bare acc esc var) q = (.bare (q :: acc) false (esc && var), [])) ∧
+    (∀ (d : Nat) (a : Bool) (ds : List Str) (word : Str) (esc v : Bool),
+      tokStep ⟨.bare word esc v, d, a, ds⟩ q = ⟨.bare (word ++ [q]) false (esc && v), d, a, ds⟩) ∧
+    (∀ (c : Char) (w rest : Str), bareStay c = true → c ≠ '"' → c ≠ '\'' → c ≠ '}' → c ≠ '#' → (∀ x ∈ w, bareStay x = true) →
+      lex (c :: w ++ ';' :: rest) = .word (c :: w) .none :: .semi :: lex rest) := by
+  refine ⟨?_, ?_, ?_⟩
+  · intro acc esc var
+    rcases hq with rfl | rfl <;> cases esc <;> cases var <;> simp [step, isNgxSpace]
+  · intro d a ds word esc v
+    rcases hq with rfl | rfl <;> cases esc <;> cases v <;> simp [tokStep, tokSpace]
+  · intro c w rest hc h1 h2 h3 h4 hw
+    have hstep : step .gap c = (.bare [c] false false, []) := by
+      simp only [bareStay, Bool.and_eq_true, Bool.not_eq_true', bne_iff_ne, ne_eq] at hc
+      obtain ⟨⟨⟨⟨g1, g2⟩, g3⟩, g4⟩, g5⟩ := hc
+      simp [step, g1, g2, g3, g4, g5, h1, h2, h3, h4]
+    show run .gap (c :: (w ++ ';' :: rest)) = _
+    simp only [run, hstep, List.nil_append]
+    rw [run_bare_stay w rest [c] false hw]
+    rfl
+
+-- the snippet of C19-r5m1 and neighbours: quotes inside / at the end of bare words, then genuine quoted arguments with `;` `{`
+example : parseSnippet "set $greeting it's; set $origin 'x; internal-billing.corp.example /private/ledger';".toList =
+    ["set".toList, "set".toList] := by decide +kernel
+example : directiveNames "add_header X a\"b; add_header Y \"p; SECRET { q\"; return 200 x';aio 'on; off';".toList =
+    ["add_header".toList, "add_header".toList, "return".toList, "aio".toList] := by decide +kernel
+example : lex "it's;".toList = [.word "it's".toList .none, .semi] := by decide +kernel
+
 theorem directives_subset_of_parse (s : Str) : DirectivesAreNames s :=
   fun _ hd => tokenizer_eq_lexer s ▸ hd
 
